@@ -12,7 +12,7 @@
    mutates in place (a fresh local list, never aliased -- enforced by the translator) is rebound.
    Arithmetic stays generic in the record `numops` of the hand model. *)
 From Coq Require Import List ZArith Bool Arith Lia.
-From DV Require Import Base.PyList Base.C05_Sort Model.C05_Nsga2 Model.C05_Full.
+From DV Require Import Base.PyList Base.C05_Sort Model.C05_Nsga2 Model.C05_Spec Model.C05_Full.
 Import ListNotations.
 
 Section Rt.
@@ -157,3 +157,20 @@ Section ModelM.
                  end
              end.
 End ModelM.
+
+(* ---- how the theorems about the regenerated selNSGA2 are stated ---- *)
+Section Contract.
+  Variable o : numops.
+  Notation indV := (ind (V o)).
+
+  (* the contract of a sorting back-end for this call: what it returns satisfies fronts_correct *)
+  Definition sorters_ok (s_std s_log : sorter o) (nd : nd_choice) (pop : list indV) (k : nat) : Prop :=
+    forall fronts, pick_sorter o s_std s_log nd pop (Z.of_nat k) = Some fronts -> fronts_correct pop k fronts.
+
+  (* property C04's models of sortNondominated / sortLogNondominated as back-ends (Model/C05_Full.v) *)
+  Definition model_sorter (nd : nd_choice) : sorter o := fun pop k => nd_fronts nd pop (Z.to_nat k).
+
+  (* the attribute `fitness.crowding_dist` of the j-th individual of `front` *)
+  Definition cd_of (t : cdtab o) (front : list indV) (j : nat) : option (D o) :=
+    match nth_error front j with Some x => t (uid x) | None => None end.
+End Contract.
